@@ -75,3 +75,13 @@ chk("C04", "exploration",
     "them); registers downstream of a discontinuity/singularity hit are not value-judged; unit-rule lru caches are reset before "
     "each dyadic case (they are keyed by approximate Unit equality). Temperature refusals are C08's.",
     "Hypothesis program generation vs reference interpreter (SI model) + bit-exact metamorphic re-expression", "DESIGN.md §3 C04")
+chk("C17", "exploration",
+    "Deterministic grid over 13 dtypes x 14 unit pairs x copy routes (to, in_units, to_value) and 7 units x base routes "
+    "(in_base, in_mks, in_cgs), each with its in-place twin, at the dtype limits and the documented float-exactness thresholds; "
+    "Hypothesis cases over the full integer ranges incl. mixed-unit binary ufuncs (operator, ufunc, in-place, out=, mixed operand "
+    "widths). Oracle: exact Fraction conversion rounded to the float type of the input's item size (>=16 bit), complex stays "
+    "complex, result dtype equality, copy/in-place agreement in dtype and values, RuntimeWarning iff a value beyond the documented "
+    "threshold loses precision.",
+    "Trusted: exact decimal definitions of the 14 unit ratios used; binary ufuncs may return a wider float and are judged at the "
+    "width of the rescaled operand; 8-bit operands may refuse in place; overflow to inf of the prescribed type is allowed.",
+    "dtype x route grid enumeration + Hypothesis values vs exact rational conversion", "DESIGN.md §3 C17")
